@@ -302,6 +302,11 @@ def merge_val(c, a, b, name="m"):
         fields = {}
         try:
             for k in set(a.fields) | set(b.fields):
+                if k == "__origin__":
+                    # marks the caller's object (frame obligations): kept only if both sides are that object
+                    if k in a.fields and k in b.fields and getattr(a.fields[k], "v", 1) == getattr(b.fields[k], "v", 2):
+                        fields[k] = a.fields[k]
+                    continue
                 if k in a.fields and k in b.fields:
                     fields[k] = merge_val(c, a.fields[k], b.fields[k], name + "." + k)
                 elif a.cls == "__kwdict__":
